@@ -65,28 +65,55 @@ Definition regex_match (p s : name) : bool :=
 
 Inductive fmode := FIn | FOut.                       (* FILTER_MODE_IN / FILTER_MODE_OUT *)
 Definition fmode_eqb (a b : fmode) : bool := match a, b with FIn, FIn | FOut, FOut => true | _, _ => false end.
-Record filter := { f_patt : name; f_regex : bool; f_mode : fmode }.
 
-(* one element of UFTRACE_FILTER split at ';' (init_filters loop body) *)
-Definition mk_filter (raw : name) : filter :=
+(* UFTRACE_PATTERN (--match): unset or anything else = regex, "glob", "simple" *)
+Inductive ptype := PRegex | PGlob | PSimple.
+Definition c_STAR : N := 42.  Definition c_QMARK : N := 63.
+
+(* fnmatch(patt, name, 0) restricted to '*', '?' and literals (no brackets, no backslash) *)
+Fixpoint glob_match (p s : name) {struct p} : bool :=
+  match p with
+  | [] => match s with [] => true | _ => false end
+  | c :: p' =>
+      if N.eqb c c_STAR
+      then (fix star (s : name) : bool :=
+              glob_match p' s || match s with [] => false | _ :: s' => star s' end) s
+      else match s with
+           | [] => false
+           | d :: s' => (N.eqb c c_QMARK || N.eqb c d) && glob_match p' s'
+           end
+  end.
+
+Record filter := { f_patt : name; f_type : ptype; f_mode : fmode }.
+
+(* one element of UFTRACE_FILTER split at ';' (init_filters loop body): a pattern without any of
+   REGEX_CHARS is compared with strcmp whatever the pattern type *)
+Definition patt_type (pt : ptype) (p : name) : ptype := if has_regex_char p then pt else PSimple.
+Definition mk_filter_pt (pt : ptype) (raw : name) : filter :=
   match raw with
   | c :: r => if N.eqb c c_BANG
-              then {| f_patt := r; f_regex := has_regex_char r; f_mode := FOut |}
-              else {| f_patt := raw; f_regex := has_regex_char raw; f_mode := FIn |}
-  | [] => {| f_patt := []; f_regex := false; f_mode := FIn |}
+              then {| f_patt := r; f_type := patt_type pt r; f_mode := FOut |}
+              else {| f_patt := raw; f_type := patt_type pt raw; f_mode := FIn |}
+  | [] => {| f_patt := []; f_type := PSimple; f_mode := FIn |}
   end.
+Definition mk_filter := mk_filter_pt PRegex.
 Definition is_in (f : filter) : bool := fmode_eqb (f_mode f) FIn.
 
 (* init_filters: None = UFTRACE_FILTER unset (FILTER_MODE_NONE) *)
-Definition init_filters (env : option (list name)) : option fmode * list filter :=
+Definition init_filters_pt (pt : ptype) (env : option (list name)) : option fmode * list filter :=
   match env with
   | None => (None, [])
-  | Some raws => let fs := map mk_filter raws in
+  | Some raws => let fs := map (mk_filter_pt pt) raws in
                  (Some (if existsb is_in fs then FIn else FOut), fs)
   end.
+Definition init_filters := init_filters_pt PRegex.
 
 Definition match_filter (f : filter) (nm : name) : bool :=
-  if f_regex f then regex_match (f_patt f) nm else name_eqb (f_patt f) nm.
+  match f_type f with
+  | PRegex => regex_match (f_patt f) nm
+  | PGlob => glob_match (f_patt f) nm
+  | PSimple => name_eqb (f_patt f) nm
+  end.
 
 (* the list_for_each_entry loop of apply_filters: first matching filter wins *)
 Fixpoint first_match (fs : list filter) (nm : name) : option fmode :=
@@ -105,8 +132,9 @@ Record cfg := {
   c_fixed : bool                   (* true: current code; false: code before fix 5445264 (legacy witnesses) *)
 }.
 
-Definition mkcfg (env : option (list name)) (m : libmode) (fixed : bool) : cfg :=
-  let '(fm, fs) := init_filters env in {| c_fmode := fm; c_filters := fs; c_lib := m; c_fixed := fixed |}.
+Definition mkcfg_pt (pt : ptype) (env : option (list name)) (m : libmode) (fixed : bool) : cfg :=
+  let '(fm, fs) := init_filters_pt pt env in {| c_fmode := fm; c_filters := fs; c_lib := m; c_fixed := fixed |}.
+Definition mkcfg := mkcfg_pt PRegex.
 
 Record st := { cin : Z; cout : Z; lc : Z }.           (* count_in, count_out, libcall_count *)
 Definition st0 : st := {| cin := 0; cout := 0; lc := 0 |}.
@@ -307,6 +335,15 @@ Fixpoint drop (p : sym -> bool) (f : forest) : forest :=
   end.
 Definition matches (c : cfg) (s : sym) : bool :=
   match first_match (c_filters c) (s_name s) with Some _ => true | None => false end.
+
+Definition is_kin (c : cfg) (s : sym) : bool := match classify c s with KIn => true | _ => false end.
+Definition is_kout (c : cfg) (s : sym) : bool := match classify c s with KOut => true | _ => false end.
+(* the calls of the main module only: library calls removed, what they call moved up *)
+Fixpoint main_only (f : forest) : forest :=
+  match f with
+  | FNil => FNil
+  | FNode b k r => if s_lib (l_sym b) then fapp (main_only k) (main_only r) else FNode b (main_only k) (main_only r)
+  end.
 
 Fixpoint fall (p : lab -> bool) (f : forest) : bool :=
   match f with FNil => true | FNode b k r => p b && fall p k && fall p r end.
@@ -517,12 +554,25 @@ Fixpoint iforest_syms (md : option name) (fns : list func) (f : iforest) : fores
       FNode {| l_sym := sy; l_c := c; l_exc := exc |} (iforest_syms md fns kids) (iforest_syms md fns rest)
   end.
 
+(* names determine symbols among the functions of a table (hypothesis of the function-level
+   theorem, checked on every generated case) *)
+Definition fsym_of (md : option name) (fn : func) : option sym :=
+  sym_of_func md (if func_is_c fn then CCall else Call) fn.
+Definition consistentb (md : option name) (fns : list func) : bool :=
+  let l := dummy_func :: fns in
+  forallb (fun f => forallb (fun g =>
+    match fsym_of md f, fsym_of md g with
+    | Some s, Some t => if name_eqb (s_name s) (s_name t) then sym_eqb s t else true
+    | _, _ => true
+    end) l) l.
+
 (* a scripted case: configuration, functions, event stream (kind, function index), and what the
    implementation did: addresses passed to the hooks and the written symbol table *)
 Inductive akind := KE (a : N) | KX.
 Definition ahook_of (k : akind) : ahook := match k with KE a => AEnter a | KX => AExit end.
 
 Record case := {
+  k_patt : ptype;                  (* UFTRACE_PATTERN *)
   k_env : option (list name);      (* UFTRACE_FILTER split at ';' *)
   k_lib : libmode;
   k_pymain : option name;          (* UFTRACE_PYMAIN (absolute) *)
@@ -557,7 +607,7 @@ Definition trace_python (c : cfg) (md : option name) (evs : list fevent) : list 
 
 (* correspondence: model automaton + address table vs implementation *)
 Definition agrees (k : case) : bool :=
-  let c := mkcfg (k_env k) (k_lib k) true in
+  let c := mkcfg_pt (k_patt k) (k_env k) (k_lib k) true in
   let md := option_map main_dir_of (k_pymain k) in
   let '(tab, _, hs) := trace_python c md (case_events k) in
   list_eqb ahook_eqb hs (map ahook_of (k_hooks k)) && list_eqb sym_eqb tab (k_symtab k).
@@ -572,7 +622,7 @@ Fixpoint select_all (c : cfg) (fs : list forest) : list hook :=
   end.
 
 Definition ok_case (k : case) : bool :=
-  let c := mkcfg (k_env k) (k_lib k) true in
+  let c := mkcfg_pt (k_patt k) (k_env k) (k_lib k) true in
   let md := option_map main_dir_of (k_pymain k) in
   let impl := resolve_hooks (k_symtab k) (map ahook_of (k_hooks k)) in
   let want := select_all c (map (iforest_syms md (k_funcs k)) (k_forests k)) in
@@ -645,6 +695,7 @@ Fixpoint prefix_eqb {A} (eq : A -> A -> bool) (a b : list A) : bool :=     (* a 
    table of labelled names; exc = still open when the program called os._exit), and the forest
    `uftrace replay` printed *)
 Record ecase := {
+  x_patt : ptype;
   x_env : option (list name);
   x_lib : libmode;
   x_tab : list lab;
@@ -654,11 +705,11 @@ Record ecase := {
 }.
 (* specification: replay shows exactly the selected forest *)
 Definition e_ok (k : ecase) : bool :=
-  nforest_eqb (names_of (trim_open (select (mkcfg (x_env k) (x_lib k) true) 0 0 0 (iforest_labs (x_tab k) (x_log k)))))
+  nforest_eqb (names_of (trim_open (select (mkcfg_pt (x_patt k) (x_env k) (x_lib k) true) 0 0 0 (iforest_labs (x_tab k) (x_log k)))))
               (x_replay k).
 (* correspondence: the model automaton + shadow stack produce the same entries as the real run *)
 Definition e_agrees (k : ecase) : bool :=
-  let c := mkcfg (x_env k) (x_lib k) true in
+  let c := mkcfg_pt (x_patt k) (x_env k) (x_lib k) true in
   let '(_, recs, _) := mc_run [] (snd (run c st0 (events (iforest_labs (x_tab k) (x_log k))))) in
   if x_open k then prefix_eqb dn_eqb (nentries O (x_replay k)) (rec_entries recs)
   else list_eqb dn_eqb (rec_entries recs) (nentries O (x_replay k)).
